@@ -623,6 +623,7 @@ class Composite(LexicalParent[Node], HasCreator, Node, ABC):
             if sending_channel.value_receiver in self.outputs
         ]
         self._ensure_valid_value_links(inbound_links + outbound_links)
+        self._ensure_io_survives_replacement(owned_node_instance, replacement_node)
 
         replacement_node.copy_io(
             owned_node_instance
@@ -653,6 +654,13 @@ class Composite(LexicalParent[Node], HasCreator, Node, ABC):
         replacement_node._cached_inputs = None
 
         return owned_node_instance, replacement_node
+
+    def _ensure_io_survives_replacement(self, owned: Node, replacement: Node) -> None:
+        """
+        A hook for composites whose own IO depends on their children's channels: raise
+        here, while nothing has changed yet, if that IO could not be built any more once
+        `replacement` sits in for `owned`.
+        """
 
     @staticmethod
     def _ensure_valid_value_links(links) -> None:
